@@ -66,13 +66,18 @@ struct Sim {
     wakers: HashMap<u64, Waker>,
     pace: Option<Instant>,
     max_late_us: u64,
-    /// Timer::delay_for calls: (virtual start, requested µs)
+    /// completed Timer::delay_for sleeps that were started while no request was in flight, i.e. the
+    /// back-off sleeps (the others are the per-reply deadline timers): (virtual start, requested µs)
     delays: Vec<(u64, u64)>,
+    /// deadline timers that fired: (virtual start, requested µs)
+    cuts: Vec<(u64, u64)>,
+    /// scripted requests started and neither answered nor dropped yet
+    inflight: u64,
 }
 
 impl Sim {
     fn new() -> Self {
-        Self { now_us: 0, seq: 0, timers: BinaryHeap::new(), wakers: HashMap::new(), pace: None, max_late_us: 0, delays: vec![] }
+        Self { now_us: 0, seq: 0, timers: BinaryHeap::new(), wakers: HashMap::new(), pace: None, max_late_us: 0, delays: vec![], cuts: vec![], inflight: 0 }
     }
 }
 
@@ -246,16 +251,25 @@ impl Time for SimTime {
         // the pool's back-off sleep.  Like tokio's sleep it never returns early on the real clock:
         // in paced mode it is anchored at the real offset, which re-synchronises virtual time.
         let d = duration.as_micros() as u64;
-        let base = SIM.with(|s| {
-            let mut s = s.borrow_mut();
+        let (v, base, racing) = SIM.with(|s| {
+            let s = s.borrow();
             let v = s.now_us;
-            s.delays.push((v, d));
-            match s.pace {
+            let base = match s.pace {
                 Some(t0) => v.max(t0.elapsed().as_micros() as u64),
                 None => v,
+            };
+            (v, base, s.inflight > 0)
+        });
+        VSleep::until(base.saturating_add(d)).await;
+        // only sleeps that ran to their end are recorded (a deadline timer is dropped when a reply wins)
+        SIM.with(|s| {
+            let mut s = s.borrow_mut();
+            if racing {
+                s.cuts.push((v, d));
+            } else {
+                s.delays.push((v, d));
             }
         });
-        VSleep::until(base + d).await
     }
 
     async fn timeout<F: 'static + Future + Send>(duration: Duration, future: F) -> Result<F::Output, io::Error> {
@@ -392,6 +406,7 @@ struct Ex {
     start_us: u64,
     end_us: Option<u64>,
     rep: Rep,
+    lat_us: u64,
 }
 
 struct Env {
@@ -481,6 +496,18 @@ fn reply(rep: Rep, srv: usize, tcp: bool, request: &DnsRequest) -> Result<DnsRes
     DnsResponse::from_message(m).map_err(NetError::from)
 }
 
+/// counts a scripted request as in flight until it is answered or its future is dropped
+struct InFlight;
+impl Drop for InFlight {
+    fn drop(&mut self) {
+        let _ = SIM.try_with(|s| {
+            if let Ok(mut s) = s.try_borrow_mut() {
+                s.inflight = s.inflight.saturating_sub(1);
+            }
+        });
+    }
+}
+
 impl DnsHandle for Handle {
     type Response = Pin<Box<dyn Stream<Item = Result<DnsResponse, NetError>> + Send>>;
     type Runtime = SimRuntime;
@@ -510,10 +537,13 @@ impl DnsHandle for Handle {
         }
         let idx = {
             let mut log = env.log.lock().unwrap();
-            log.push(Ex { srv, tcp, start_us: start, end_us: None, rep: step.rep });
+            log.push(Ex { srv, tcp, start_us: start, end_us: None, rep: step.rep, lat_us: step.lat_ms * 1000 });
             log.len() - 1
         };
+        SIM.with(|s| s.borrow_mut().inflight += 1);
+        let guard = InFlight;
         Box::pin(once(async move {
+            let _guard = guard;
             VSleep::until(start + step.lat_ms * 1000).await;
             env.log.lock().unwrap()[idx].end_us = Some(sim_now());
             reply(step.rep, srv, tcp, &request)
@@ -710,6 +740,7 @@ struct RunOut {
     joiner: Option<(String, u64)>,
     log: Vec<Ex>,
     delays: Vec<(u64, u64)>,
+    cuts: Vec<(u64, u64)>,
     max_late_us: u64,
     new_conns: usize,
 }
@@ -933,7 +964,7 @@ fn run_case(c: &Case) -> Result<RunOut, String> {
             (classify(&r), sim_now(), real_off())
         }
     };
-    let mut out = RunOut { callers: vec![], creator: None, joiner: None, log: vec![], delays: vec![], max_late_us: 0, new_conns: 0 };
+    let mut out = RunOut { callers: vec![], creator: None, joiner: None, log: vec![], delays: vec![], cuts: vec![], max_late_us: 0, new_conns: 0 };
     match c.cx {
         None => {
             let futs: Vec<_> = (0..k).map(|_| one(&pool)).collect();
@@ -970,6 +1001,7 @@ fn run_case(c: &Case) -> Result<RunOut, String> {
     SIM.with(|s| {
         let s = s.borrow();
         out.delays = s.delays.clone();
+        out.cuts = s.cuts.clone();
         out.max_late_us = s.max_late_us.max(react);
     });
     Ok(out)
@@ -1036,7 +1068,11 @@ fn robust(c: &Case, o: &RunOut) -> bool {
         if let Some(x) = e.end_us {
             pts.push(x);
         }
-        // a reply that has not arrived yet when the lookup completed is not a decision point
+        // a request abandoned in flight: whether its reply or the deadline timer wins is decided by its
+        // nominal end
+        if e.end_us.is_none() {
+            pts.push(e.start_us + e.lat_us);
+        }
     }
     let mut backoff = 20_000u64;
     for (start, d) in &o.delays {
@@ -1049,13 +1085,14 @@ fn robust(c: &Case, o: &RunOut) -> bool {
         pts.push(*start);
         backoff *= 2;
     }
-    for (_, v, _) in &o.callers {
-        // completions by the deadline check are at the deadline by construction
-        pts.push(*v);
-    }
-    let timeout_exit = o.callers.iter().any(|(r, _, _)| r == "err:timeout");
     for p in pts {
-        if near(p) && !(timeout_exit && p >= t) {
+        if near(p) {
+            return false;
+        }
+    }
+    for (r, v, _) in &o.callers {
+        // a completion by the deadline (check or timer) is at the deadline by construction
+        if near(*v) && !(r == "err:timeout" && *v >= t) {
             return false;
         }
     }
@@ -1200,13 +1237,15 @@ fn exec_real(line: &str, t: &[&str], rec: &mut Recorder) {
     match r {
         Ok(Ok((class, elapsed_ms, s2_got_query))) => {
             rec.stat(&format!("real_result_{}", class.replace(':', "_")));
+            eprintln!("c18: real sockets T={t_ms} d={d_ms}: {class} after {elapsed_ms} ms");
             rec.nontrivial(idx);
             if !(class.starts_with("ans:") || class.starts_with("err:")) {
                 rec.fail(idx, format!("lookup completed with neither an answer nor an error: {class}"), "");
             }
             // (real sockets, real scheduler: a wider tolerance than in paced mode)
             if elapsed_ms > t_ms + 100 {
-                let class_f = if s2_got_query && d_ms < t_ms { "deadline-overrun-by-last-round" } else { "" };
+                let _ = s2_got_query;
+                let class_f = "";
                 rec.fail(
                     idx,
                     format!(
@@ -1315,24 +1354,17 @@ fn oracle(c: &Case, o: &RunOut, valid: bool, idx: usize, rec: &mut Recorder) {
         let (virt, real) = (r.1, r.2);
         if c.paced {
             if valid && real > t_us + TOL_US && virt > t_us + TOL_US {
-                // class: the round in progress when the deadline passed was started before it
-                // (a server request is a unit: the exchange after a reconnect continues it)
-                let request_end = |e: &Ex| match e.end_us {
-                    Some(x) if e.rep == Rep::Rst => o.log.iter().find(|y| y.srv == e.srv && y.start_us == x).and_then(|y| y.end_us).unwrap_or(x),
-                    Some(x) => x,
-                    None => u64::MAX,
-                };
-                let started_before = o.log.iter().any(|e| e.start_us < t_us && request_end(e) > t_us + TOL_US);
-                let class = if started_before { "deadline-overrun-by-last-round" } else { "" };
+                // (the overrun by a whole server round, finding C18-F1, was repaired by 92faead: any
+                //  overrun is a violation again)
                 rec.fail(
                     idx,
                     format!(
-                        "lookup completed {} ms after it started (result {}), configured timeout {} ms: NameServerPool::send checks its deadline only between rounds, a round started before the deadline runs to its own end",
+                        "lookup completed {} ms after it started (result {}), configured timeout {} ms",
                         real / 1000,
                         r.0,
                         c.t_ms
                     ),
-                    class,
+                    "",
                 );
                 break;
             }
@@ -1727,29 +1759,40 @@ fn gen_b(o: &Opts) -> Vec<String> {
         let g = t / 10; // grid unit
         // b1: sequential failures cross the deadline between rounds → Timeout at the check
         v.push(mk(Strat::User, 1, t, 1, vec![udp_only(vec![st(Rep::Io, 6 * g)], true), udp_only(vec![st(Rep::Io, 6 * g)], true), udp_only(vec![st(Rep::Ans, g)], true)]));
-        // b2: the suspected overrun — server 1 fails at 0.8 T, server 2 (started before the deadline)
-        //     only gives up after its own timeout T
+        // b2: regression for the repaired finding C18-F1 — server 1 fails at 0.8 T, server 2 (started
+        //     before the deadline) would only give up after its own timeout T: abandoned at the deadline
         v.push(mk(Strat::User, 1, t, 1, vec![udp_only(vec![st(Rep::Io, 8 * g)], true), udp_only(vec![st(Rep::To, t)], true)]));
         // b2': … or answers late
         v.push(mk(Strat::User, 1, t, 3, vec![udp_only(vec![st(Rep::Io, 8 * g)], true), udp_only(vec![st(Rep::Ans, 7 * g)], true)]));
         // within budget: the same with early replies
         v.push(mk(Strat::User, 1, t, 1, vec![udp_only(vec![st(Rep::Io, 2 * g)], true), udp_only(vec![st(Rep::Ans, 3 * g)], true)]));
-        // single server that never answers: completion at its own timeout = T (+ε), no overrun
+        // single server that never answers: its own timeout = T races the pool's deadline (a tie by
+        // nature: implementation-vs-oracle only), and a shorter stream timeout
         v.push(mk(Strat::User, 2, t, 1, vec![udp_only(vec![st(Rep::To, t)], true)]));
+        v.push(mk(Strat::User, 2, t, 1, vec![udp_only(vec![st(Rep::To, 7 * g)], true)]));
+        // reset on a REUSED connection at 0.75 T, the reconnected request would end at 1.75 T: the
+        // reconnect is inside the request that is raced against the deadline
+        v.push(mk(
+            Strat::User,
+            1,
+            t,
+            1,
+            vec![Srv { trust: true, warm: 0, pre_udp: true, pre_tcp: false, udp: Some(vec![st(Rep::Rst, 15 * g / 2), st(Rep::To, t)]), tcp: None }],
+        ));
         // b3: everybody busy: back-off 20,40,80,… capped by the remaining budget → Timeout at T
         v.push(mk(Strat::User, 2, 105, 1, vec![udp_only(vec![st(Rep::Busy, 1)], true)]));
         // back-off exhausted before the deadline (20+40+80+160 = 300 ms < T)
         v.push(mk(Strat::User, 2, 420, 1, vec![udp_only(vec![st(Rep::Busy, 1)], true)]));
         // busy then answer after the first back-off
         v.push(mk(Strat::Rr, 1, t, 2, vec![udp_only(vec![st(Rep::Busy, g), st(Rep::Ans, 2 * g)], true), udp_only(vec![st(Rep::Io, 3 * g)], true)]));
-        // parallel batch: the slow member keeps the round open across the deadline
+        // parallel batch: the slow members would keep the round open across the deadline
         v.push(mk(Strat::User, 2, t, 1, vec![udp_only(vec![st(Rep::Io, 2 * g)], true), udp_only(vec![st(Rep::To, 8 * g)], true), udp_only(vec![st(Rep::To, 7 * g)], true)]));
         // truncated → TCP within the budget, and across the deadline
         let both = |u: Vec<Step>, tc: Vec<Step>| Srv { trust: true, warm: 0, pre_udp: false, pre_tcp: false, udp: Some(u), tcp: Some(tc) };
         v.push(mk(Strat::User, 1, t, 1, vec![both(vec![st(Rep::Tc, 2 * g)], vec![st(Rep::Ans, 3 * g)])]));
         v.push(mk(Strat::User, 1, t, 1, vec![both(vec![st(Rep::Tc, 7 * g)], vec![st(Rep::Ans, 8 * g)])]));
-        // TCP keeps answering truncated: re-queued until the deadline check ends the loop
-        v.push(mk(Strat::User, 1, t, 1, vec![both(vec![st(Rep::Tc, 2 * g)], vec![st(Rep::Tc, 3 * g)])]));
+        // TCP keeps answering truncated: re-queued until the deadline ends the loop
+        v.push(mk(Strat::User, 1, t, 1, vec![both(vec![st(Rep::Tc, 5 * g / 2)], vec![st(Rep::Tc, 3 * g)])]));
         // random grid cases
         for _ in 0..(if o.thorough() { 12 } else { 10 }) {
             let n = r.range(1, 3) as usize;
